@@ -61,8 +61,18 @@ func c09RecoveredPanics() []string {
 			out = append(out, fmt.Sprintf("%d:BLOCKED", i))
 		}
 		if i == 0 {
-			// the name list the first call installed before it panicked is put back (a names-only fix-up)
-			try(func() { HolidayUtil.Fix(HolidayUtil.NAMES, "") })
+			// the name list the first call installed before it panicked is put back (a names-only fix-up); with a
+			// deadline too: if it never returns the probes below will say so
+			back := make(chan bool, 1)
+			go func() {
+				try(func() { HolidayUtil.Fix(HolidayUtil.NAMES, "") })
+				back <- true
+			}()
+			select {
+			case <-back:
+			case <-time.After(30 * time.Second):
+				out = append(out, "restore:BLOCKED")
+			}
 		}
 	}
 	return out
